@@ -186,9 +186,21 @@ def run(res, proof):
         pt = list(o.pair_table); pt.clear()
         for a, b in o.rotate(): a.append('junk'); b.append('x')
         for a, b in o.rotate_pt(): a.append(['junk']); b.append([None])
-        after = snapshot(o, 'cplx')
+        try:
+            after = snapshot(o, 'cplx')
+            broke = None
+        except Exception as e:
+            after, broke = None, type(e).__name__
+            e = None
         if before != after:
-            res.violation('view-aliases-object', {'object': repr(o)}, 'object changed after mutating handed-out views', 'views are copies')
+            # which view hands out a part of the object: re-read the plain attributes (no derived view can fail here)
+            try:
+                now = ('sequence %s / structure %s' % (' '.join(map(str, o._sequence)), ''.join(map(str, o._structure))))
+            except Exception:
+                now = '?'
+            res.violation('view-aliases-object', {'object': 'complex %s (handle h%d)' % (o.name, h), 'mutated': 'every inner list of strand_table / pair_table / rotate() / rotate_pt() and the lists made from sequence / structure'},
+                          ('reading the object afterwards raises %s; ' % broke if broke else 'object changed after mutating handed-out views; ') + 'it now holds ' + now,
+                          'views are copies: the object is unchanged')
         res.count('aliasing_checked')
     # ---- equal objects of the SAME class: an object kept across clear_singletons() and the object built again afterwards
     # (both alive, same canonical form, different identity): every coherence law applies to them as well
